@@ -232,6 +232,18 @@ def api_list():
             cat[0].kron_photometry((2.5, 1.4))
             seg.make_source_mask(footprint=fp)
             seg.polygons if deb.nlabels < 20 else None
+            # a SegmentationImage wraps the caller's label array without copying it: reading anything from it (the per-label Segment
+            # objects, their cut-outs ...) must leave that array alone
+            lab = np.array(deb.data, copy=True)
+            ins['label_array'] = lab
+            s2 = snap(lab)
+            si = ps.SegmentationImage(lab)
+            touch_all(si, skip=('polygons', 'patches') if deb.nlabels >= 20 else ())
+            for sg in si.segments:
+                _ = (sg.data, sg.data_ma, np.asarray(sg), sg.make_cutout(np.zeros(lab.shape)))
+            si.make_source_mask(footprint=fp)
+            if snap(lab) != s2:
+                raise AssertionError('label-array-modified-by-reads')
             if snap(t2d) != s0:
                 raise AssertionError('threshold-array-modified')
             if snap(seg) != s1:
@@ -339,6 +351,25 @@ def api_list():
             it.make_residual_image(D)
         return ins, go
 
+    def psf_models(sc, D, E, M, U):
+        # evaluating a PSF model on the caller's float64 coordinate arrays (seed C13-r7 worked in place on them)
+        yy0, xx0 = np.mgrid[0:sc['data'].shape[0], 0:sc['data'].shape[1]]
+        xx, yy = np.ascontiguousarray(xx0, dtype=np.float64), np.ascontiguousarray(yy0, dtype=np.float64)
+        stamp = np.asarray(np.ma.getdata(getattr(D, 'value', D)), float)[:9, :9].copy()
+        stamp = np.where(np.isfinite(stamp), stamp, 0.0)
+        x0, y0 = sc['pos'][0]
+        models = [ppsf.GaussianPSF(x_0=x0, y_0=y0, x_fwhm=3.0, y_fwhm=2.0, theta=20.0), ppsf.CircularGaussianPSF(x_0=x0, y_0=y0, fwhm=3.0),
+                  ppsf.GaussianPRF(x_0=x0, y_0=y0, x_fwhm=3.0, y_fwhm=2.0), ppsf.CircularGaussianPRF(x_0=x0, y_0=y0, fwhm=3.0),
+                  ppsf.CircularGaussianSigmaPRF(x_0=x0, y_0=y0, sigma=1.3), ppsf.MoffatPSF(x_0=x0, y_0=y0), ppsf.AiryDiskPSF(x_0=x0, y_0=y0, radius=3.0),
+                  ppsf.ImagePSF(stamp, x_0=x0, y_0=y0, oversampling=2)]
+        ins = dict(x=xx, y=yy, stamp=stamp, models=models)
+
+        def go():
+            for m_ in models:
+                m_(xx, yy)
+                m_.evaluate(xx, yy, *m_.parameters)
+        return ins, go
+
     def render(sc, D, E, M, U):
         from photutils.datasets import make_model_image
         model = ppsf.CircularGaussianPRF(fwhm=2.5)
@@ -420,7 +451,7 @@ def api_list():
 
     return [('epsf', epsf), ('aperture', aperture), ('aperture-nddata', aperture_nddata), ('background', background), ('segmentation', segmentation),
             ('detection', detection), ('centroids', centroids), ('profiles', profiles), ('calc_total_error', total_error), ('psf', psf),
-            ('make_model_image', render), ('morphology', morphology), ('isophote', isophote), ('ImageDepth', image_depth)]
+            ('make_model_image', render), ('psf-models', psf_models), ('morphology', morphology), ('isophote', isophote), ('ImageDepth', image_depth)]
 
 
 def sweep(rep, r, nscenes):
